@@ -59,7 +59,7 @@ Member(st) ==
 
 Succ(st) ==
     LET p == st.p  ar == st.args IN
-    CASE st.a = "SuccCreate" -> SuccCreate(ar.kind, p, {ar.kps[i] : i \in 1..Len(ar.kps)})
+    CASE st.a = "SuccCreate" -> SuccCreate(ar.kind, p, {ar.kps[i] : i \in 1..Len(ar.kps)}, ar.tweak)
       [] st.a = "SuccJoin" -> SuccJoin(p, ar.succ, ar.how)
       [] st.a = "SuccForge" -> SuccForge(ar.kind, p, ar.like, {ar.kps[i] : i \in 1..Len(ar.kps)})
       [] OTHER -> FALSE
